@@ -1,3 +1,248 @@
 import MgModel.C17.Time
+/-!
+# C17 — lemmas for the time-rotating handler (fixed order: detect, rotate, write)
+
+`needRot` (the `switch` of `detect`) is the negation of "same period"; a file name
+stands for the period of the time it was made from; the representation invariant
+`TInv`; one `write` files its line correctly (`twrite_spec`); whole histories
+(`trun_filed`).
+-/
 namespace MgProof.C17
+open MgModel.C17
+variable {β : Type}
+
+/-- the `switch` of `detect` asks for a rotation exactly when the period changes -/
+theorem needRot_eq_false_iff (u : RotUnit) (m : Nat) (c l : Tm) :
+    needRot u m c l = false ↔ periodOf u m c = periodOf u m l := by
+  cases u <;> simp [needRot, periodOf] <;> grind
+
+/-- a file name stands for the period of the time it was made from -/
+theorem periodOf_nameOf (u : RotUnit) (m : Nat) (t : Tm) :
+    periodOf u m (nameOf u t).tm = periodOf u m t := by
+  cases u <;> simp [periodOf, nameOf, Name.tm]
+
+theorem nameOf_unit (u : RotUnit) (t : Tm) : (nameOf u t).unit = u := by
+  cases u <;> rfl
+
+/-- representation invariant of the time handler, with `lo` an upper bound of `last_sec`
+(the newest effective time seen so far) -/
+structure TInv (toTm : Bool → Int → Tm) (s : TSt β) (lo : Int) : Prop where
+  cur : ∀ n, s.h.cur = some n → n.unit = s.h.unit ∧
+    periodOf s.h.unit s.h.mod n.tm = periodOf s.h.unit s.h.mod s.h.lastTm
+  tm : s.h.cur.isSome → s.h.lastTm = toTm s.h.useLocal s.h.lastSec ∧ 1 ≤ s.h.mod ∧ s.h.lastSec ≤ lo
+
+theorem tinv_mono {toTm : Bool → Int → Tm} {s : TSt β} {lo lo' : Int} (inv : TInv toTm s lo)
+    (h : lo ≤ lo') : TInv toTm s lo' :=
+  ⟨inv.cur, fun ho => let ⟨a, b, c⟩ := inv.tm ho; ⟨a, b, Int.le_trans c h⟩⟩
+
+/-- `init` establishes the invariant whatever was there before -/
+theorem tinit_inv (toTm : Bool → Int → Tm) (clock : Int) (fs : TFS β) (u : RotUnit) (m : Nat)
+    (loc : Bool) (hm : 1 ≤ m) :
+    TInv toTm ⟨(tinit toTm clock fs u m loc).1, (tinit toTm clock fs u m loc).2⟩ clock ∧
+    (tinit toTm clock fs u m loc).2.recs = fs.recs ∧
+    (tinit toTm clock fs u m loc).1.cur = some (nameOf u (toTm loc clock)) := by
+  refine ⟨⟨?_, ?_⟩, rfl, rfl⟩
+  · intro n hn
+    simp only [tinit, trotate, Option.some.injEq] at hn
+    subst hn
+    exact ⟨nameOf_unit .., periodOf_nameOf ..⟩
+  · intro _
+    exact ⟨rfl, hm, Int.le_refl _⟩
+
+/-- **one write** (fixed code): from a state satisfying the invariant, a message whose
+effective time is not older than the newest one seen is appended, whole, to exactly
+one file, and that file is named for the period containing the message's time -/
+theorem twrite_spec {toTm : Bool → Int → Tm} {s : TSt β} {lo : Int} (inv : TInv toTm s lo)
+    (clock ts : Int) (l : β) (hopen : s.h.cur.isSome) (hlo : lo ≤ effSec clock ts) :
+    ∃ h' fs' n, twrite toTm clock s.h s.fs ts l = .ok (h', fs') ∧
+      fs'.recs = s.fs.recs ++ [⟨n, effSec clock ts, l⟩] ∧
+      Filed toTm s.h.unit s.h.mod s.h.useLocal ⟨n, effSec clock ts, l⟩ ∧
+      h'.unit = s.h.unit ∧ h'.mod = s.h.mod ∧ h'.useLocal = s.h.useLocal ∧ h'.cur = some n ∧
+      TInv toTm ⟨h', fs'⟩ (effSec clock ts) := by
+  obtain ⟨n0, hn0⟩ := Option.isSome_iff_exists.mp hopen
+  obtain ⟨htm, hmod, hls⟩ := inv.tm hopen
+  obtain ⟨hu0, hp0⟩ := inv.cur n0 hn0
+  generalize hsec : effSec clock ts = sec at *
+  have hm0 : s.h.mod ≠ 0 := by omega
+  by_cases hge : s.h.lastSec ≥ sec
+  · -- same second as the newest message: no detection, current file
+    have hEq : sec = s.h.lastSec := by omega
+    refine ⟨s.h, { s.fs with recs := s.fs.recs ++ [⟨n0, sec, l⟩] }, n0, ?_, rfl, ?_, rfl, rfl, rfl, hn0, ?_⟩
+    · simp [twrite, hn0, hsec, detect, hge, bind, Except.bind]
+    · exact ⟨hu0, by rw [hp0, htm, hEq]⟩
+    · exact ⟨inv.cur, fun ho => ⟨htm, hmod, by show s.h.lastSec ≤ sec; omega⟩⟩
+  · by_cases hrot : needRot s.h.unit s.h.mod (toTm s.h.useLocal sec) s.h.lastTm = true
+    · -- a new period: switch to its file first
+      let n := nameOf s.h.unit (toTm s.h.useLocal sec)
+      refine ⟨{ s.h with lastSec := sec, lastTm := toTm s.h.useLocal sec, cur := some n },
+        { created := if s.fs.created.contains n then s.fs.created else s.fs.created ++ [n],
+          recs := s.fs.recs ++ [⟨n, sec, l⟩] }, n, ?_, rfl, ?_, rfl, rfl, rfl, rfl, ?_⟩
+      · simp [twrite, hn0, hsec, detect, hge, hm0, hrot, trotate, bind, Except.bind, n]
+      · exact ⟨nameOf_unit .., periodOf_nameOf ..⟩
+      · refine ⟨?_, fun _ => ⟨rfl, hmod, Int.le_refl _⟩⟩
+        intro n' hn'
+        simp only [Option.some.injEq] at hn'
+        subst hn'
+        exact ⟨nameOf_unit .., periodOf_nameOf ..⟩
+    · -- same period: current file
+      have hsame := (needRot_eq_false_iff _ _ _ _).mp (by simpa using hrot)
+      refine ⟨{ s.h with lastSec := sec, lastTm := toTm s.h.useLocal sec },
+        { s.fs with recs := s.fs.recs ++ [⟨n0, sec, l⟩] }, n0, ?_, rfl, ?_, rfl, rfl, rfl, hn0, ?_⟩
+      · simp [twrite, hn0, hsec, detect, hge, hm0, hrot, bind, Except.bind]
+      · exact ⟨hu0, by rw [hp0, hsame]⟩
+      · refine ⟨?_, fun _ => ⟨rfl, hmod, Int.le_refl _⟩⟩
+        intro n' hn'
+        have : n' = n0 := by simpa [hn0] using hn'.symm
+        subst this
+        exact ⟨hu0, by rw [hp0, hsame]⟩
+
+/-- hypothesis on a history: `rotate_mod ≥ 1` at every init, and every message's
+effective time is at least the newest time seen since (and including) the last init -/
+def Timely : Int → List (TOp β) → Prop
+  | _, [] => True
+  | _, .init c _ m _ :: ops => 1 ≤ m ∧ Timely c ops
+  | lo, .write c ts _ :: ops => lo ≤ effSec c ts ∧ Timely (effSec c ts) ops
+  | lo, .close :: ops => Timely lo ops
+
+/-- every init of the history uses the configuration `u m loc` -/
+def CfgConst (u : RotUnit) (m : Nat) (loc : Bool) : List (TOp β) → Prop
+  | [] => True
+  | .init _ u' m' loc' :: ops => (u' = u ∧ m' = m ∧ loc' = loc) ∧ CfgConst u m loc ops
+  | _ :: ops => CfgConst u m loc ops
+
+theorem twrite_closed (toTm : Bool → Int → Tm) (clock : Int) (h : TH) (fs : TFS β) (ts : Int) (l : β)
+    (hc : h.cur = none) : twrite toTm clock h fs ts l = .ok (h, fs) := by
+  simp [twrite, hc]
+
+/-- **whole histories, one configuration** (fixed code): the run never fails, every
+record appended during it is filed in the file named for its period, and the appended
+lines are exactly the lines handed to the open handler, in order. -/
+theorem trun_filed (toTm : Bool → Int → Tm) (u : RotUnit) (m : Nat) (loc : Bool)
+    (ops : List (TOp β)) : ∀ (s : TSt β) (lo : Int), TInv toTm s lo → Timely lo ops →
+    CfgConst u m loc ops →
+    (s.h.cur.isSome → s.h.unit = u ∧ s.h.mod = m ∧ s.h.useLocal = loc) →
+    ∃ s', trun toTm s ops = .ok s' ∧ ∃ new : List (Rec β),
+      s'.fs.recs = s.fs.recs ++ new ∧ (∀ r ∈ new, Filed toTm u m loc r) ∧
+      new.map (·.line) = twritten s.h.cur.isSome ops := by
+  induction ops with
+  | nil => intro s lo _ _ _ _; exact ⟨s, rfl, [], by simp, by simp, rfl⟩
+  | cons op ops ih =>
+    intro s lo inv ht hc hcfg
+    cases op with
+    | init c u' m' loc' =>
+      obtain ⟨hm, ht'⟩ := ht
+      obtain ⟨⟨rfl, rfl, rfl⟩, hc'⟩ := hc
+      obtain ⟨inv', hrecs, hcur⟩ := tinit_inv toTm c s.fs u' m' loc' hm
+      obtain ⟨s', hs', new, h1, h2, h3⟩ := ih _ c inv' ht' hc' (fun _ => ⟨rfl, rfl, rfl⟩)
+      refine ⟨s', by simpa [trun, tstep, bind, Except.bind] using hs', new, ?_, h2, ?_⟩
+      · rw [h1]; exact congrArg (· ++ new) hrecs
+      · rw [h3]; simp [hcur, twritten]
+    | close =>
+      have inv' : TInv toTm { s with h := tclose s.h } lo :=
+        ⟨fun n hn => by simp [tclose] at hn, fun ho => by simp [tclose] at ho⟩
+      obtain ⟨s', hs', new, h1, h2, h3⟩ := ih _ lo inv' ht hc (fun ho => by simp [tclose] at ho)
+      refine ⟨s', by simpa [trun, tstep, bind, Except.bind] using hs', new, h1, h2, ?_⟩
+      rw [h3]; simp [tclose, twritten]
+    | write c ts l =>
+      obtain ⟨hlo, ht'⟩ := ht
+      by_cases ho : s.h.cur.isSome
+      · obtain ⟨h', fs', n, hw, hr, hf, e1, e2, e3, e4, inv'⟩ := twrite_spec inv c ts l ho hlo
+        obtain ⟨hu, hm, hl⟩ := hcfg ho
+        obtain ⟨s', hs', new, h1, h2, h3⟩ := ih ⟨h', fs'⟩ _ inv' ht' hc
+          (fun _ => ⟨by rw [e1, hu], by rw [e2, hm], by rw [e3, hl]⟩)
+        refine ⟨s', by simpa [trun, tstep, hw, bind, Except.bind] using hs',
+          ⟨n, effSec c ts, l⟩ :: new, ?_, ?_, ?_⟩
+        · rw [h1, hr]; simp
+        · intro r hr'
+          rcases List.mem_cons.mp hr' with rfl | hr'
+          · rw [← hu, ← hm, ← hl]; exact hf
+          · exact h2 r hr'
+        · simp [h3, twritten, ho, e4]
+      · have hn : s.h.cur = none := by simpa using ho
+        have inv' : TInv toTm s (effSec c ts) :=
+          ⟨fun n hn' => by simp [hn] at hn', fun ho' => by simp [hn] at ho'⟩
+        obtain ⟨s', hs', new, h1, h2, h3⟩ := ih s _ inv' ht' hc (fun ho' => by simp [hn] at ho')
+        refine ⟨s', by simpa [trun, tstep, twrite_closed _ _ _ _ _ _ hn, bind, Except.bind] using hs',
+          new, h1, h2, ?_⟩
+        rw [h3]; simp [twritten, hn]
+
+/-! ### reconfiguration at restarts -/
+
+/-- configuration of an open handler -/
+structure Cfg where
+  unit : RotUnit
+  mod  : Nat
+  loc  : Bool
+
+def cfgOf (h : TH) : Option Cfg := if h.cur.isSome then some ⟨h.unit, h.mod, h.useLocal⟩ else none
+
+/-- the lines accepted by the handler, each with the configuration in force -/
+def twrittenCfg : Option Cfg → List (TOp β) → List (β × Cfg)
+  | _, [] => []
+  | _, .init _ u m loc :: ops => twrittenCfg (some ⟨u, m, loc⟩) ops
+  | some c, .write _ _ l :: ops => (l, c) :: twrittenCfg (some c) ops
+  | none, .write _ _ _ :: ops => twrittenCfg none ops
+  | _, .close :: ops => twrittenCfg none ops
+
+/-- record by record: the line handed in, filed under the configuration in force -/
+def FiledAs (toTm : Bool → Int → Tm) : List (Rec β) → List (β × Cfg) → Prop
+  | [], [] => True
+  | r :: rs, p :: ps =>
+    (r.line = p.1 ∧ Filed toTm p.2.unit p.2.mod p.2.loc r) ∧ FiledAs toTm rs ps
+  | _, _ => False
+
+/-- **whole histories with reconfiguration at restarts** (fixed code): every appended
+record carries the line handed in and is filed under the configuration of the handler
+that was open at the time. -/
+theorem trun_filed_cfg (toTm : Bool → Int → Tm) (ops : List (TOp β)) :
+    ∀ (s : TSt β) (lo : Int), TInv toTm s lo → Timely lo ops →
+    ∃ s', trun toTm s ops = .ok s' ∧ ∃ new : List (Rec β),
+      s'.fs.recs = s.fs.recs ++ new ∧
+      FiledAs toTm new (twrittenCfg (cfgOf s.h) ops) := by
+  induction ops with
+  | nil => intro s lo _ _; exact ⟨s, rfl, [], by simp, by simp [twrittenCfg, FiledAs]⟩
+  | cons op ops ih =>
+    intro s lo inv ht
+    cases op with
+    | init c u m loc =>
+      obtain ⟨hm, ht'⟩ := ht
+      obtain ⟨inv', hrecs, hcur⟩ := tinit_inv toTm c s.fs u m loc hm
+      obtain ⟨s', hs', new, h1, h2⟩ := ih _ c inv' ht'
+      refine ⟨s', by simpa [trun, tstep, bind, Except.bind] using hs', new, ?_, ?_⟩
+      · rw [h1]; exact congrArg (· ++ new) hrecs
+      · have : cfgOf (tinit toTm c s.fs u m loc).1 = some ⟨u, m, loc⟩ := by
+          simp [cfgOf, hcur]; simp [tinit, trotate]
+        rw [this] at h2
+        simpa [twrittenCfg] using h2
+    | close =>
+      have inv' : TInv toTm { s with h := tclose s.h } lo :=
+        ⟨fun n hn => by simp [tclose] at hn, fun ho => by simp [tclose] at ho⟩
+      obtain ⟨s', hs', new, h1, h2⟩ := ih _ lo inv' ht
+      refine ⟨s', by simpa [trun, tstep, bind, Except.bind] using hs', new, h1, ?_⟩
+      have : cfgOf (tclose s.h) = none := by simp [cfgOf, tclose]
+      rw [this] at h2
+      simpa [twrittenCfg] using h2
+    | write c ts l =>
+      obtain ⟨hlo, ht'⟩ := ht
+      by_cases ho : s.h.cur.isSome
+      · obtain ⟨h', fs', n, hw, hr, hf, e1, e2, e3, e4, inv'⟩ := twrite_spec inv c ts l ho hlo
+        obtain ⟨s', hs', new, h1, h2⟩ := ih ⟨h', fs'⟩ _ inv' ht'
+        refine ⟨s', by simpa [trun, tstep, hw, bind, Except.bind] using hs',
+          ⟨n, effSec c ts, l⟩ :: new, by rw [h1, hr]; simp, ?_⟩
+        have hc1 : cfgOf s.h = some ⟨s.h.unit, s.h.mod, s.h.useLocal⟩ := by simp [cfgOf, ho]
+        have hc2 : cfgOf h' = some ⟨s.h.unit, s.h.mod, s.h.useLocal⟩ := by
+          simp [cfgOf, e1, e2, e3, e4]
+        rw [hc1, twrittenCfg]
+        rw [hc2] at h2
+        exact ⟨⟨rfl, hf⟩, h2⟩
+      · have hn : s.h.cur = none := by simpa using ho
+        have inv' : TInv toTm s (effSec c ts) :=
+          ⟨fun n hn' => by simp [hn] at hn', fun ho' => by simp [hn] at ho'⟩
+        obtain ⟨s', hs', new, h1, h2⟩ := ih s _ inv' ht'
+        refine ⟨s', by simpa [trun, tstep, twrite_closed _ _ _ _ _ _ hn, bind, Except.bind] using hs',
+          new, h1, ?_⟩
+        have : cfgOf s.h = none := by simp [cfgOf, hn]
+        rw [this] at h2 ⊢
+        simpa [twrittenCfg] using h2
+
 end MgProof.C17
